@@ -97,8 +97,22 @@ func TestExactlyOncePipeline(t *testing.T) {
 					binary.BigEndian.PutUint64(k, uint64(nextID))
 					recs = append(recs, &kgo.Record{Topic: "in", Partition: int32(nextID % int64(p.InParts)), Key: k, Value: []byte("payload")})
 				}
-				if err := prod.ProduceSync(ctx, recs...).FirstErr(); err != nil {
-					panic("VERIF-INFRA: prefill: " + err.Error())
+				// the harness's own producer shares the faulty network: a transport error surfaced as a
+				// record error (for example while the topic is first loaded) is retried per record
+				for attempt := 0; len(recs) > 0; attempt++ {
+					var again []*kgo.Record
+					for _, r := range prod.ProduceSync(ctx, recs...) {
+						if r.Err != nil {
+							if attempt >= 30 {
+								panic("VERIF-INFRA: prefill: " + r.Err.Error())
+							}
+							again = append(again, &kgo.Record{Topic: r.Record.Topic, Partition: r.Record.Partition, Key: r.Record.Key, Value: r.Record.Value})
+						}
+					}
+					recs = again
+					if len(recs) > 0 {
+						time.Sleep(time.Second)
+					}
 				}
 				total += int64(n)
 			}
